@@ -1,1 +1,880 @@
 // Kani contract harnesses for /repo/arrow-buffer/src/util/bit_util.rs (child module: sees private items via super::)
+//
+// Specification side (C19): a bit-packed sequence s is read as bit(s, i) = (s[i/8] >> (i%8)) & 1
+// (spec::bit). Every contract below is stated on that definition only; no arrow-rs function is
+// called on the specification side.
+use super::*;
+#[path = "/verif/kani/support/spec.rs"]
+mod spec;
+use spec::*;
+
+/// bit p of a word (specification helper, independent of the code under test)
+fn wbit(w: u64, p: usize) -> bool {
+    (w >> p) & 1 == 1
+}
+
+// ------------------------------------------------------------------------------------------------
+// get_bit / set_bit / unset_bit and the _raw variants
+// ------------------------------------------------------------------------------------------------
+
+// Contract (C19): for a slice s of any length n <= 8 bytes (the functions are loop-free and touch
+// only byte i/8, so n is immaterial) and EVERY usize index i:
+//   get_bit(s, i) panics (rejects) exactly when i/8 >= n, otherwise returns bit(s, i);
+//   get_bit_raw(ptr, i) returns the same value for an in-range i.
+// @unit name=get_bit_contract props=C19 kind=complete fns=get_bit,get_bit_raw mayreject=1 timeout=60
+#[kani::proof]
+fn get_bit_contract() {
+    let d: [u8; 8] = kani::any();
+    let n: usize = kani::any();
+    kani::assume(n <= 8);
+    let i: usize = kani::any();
+    let s = &d[..n];
+    let r = get_bit(s, i); // rejects (index panic) iff i / 8 >= n
+    assert!(i / 8 < n); // reached => i addressed a byte of s
+    assert!(r == bit(s, i));
+    assert!(unsafe { get_bit_raw(s.as_ptr(), i) } == r);
+    kani::cover!(r && i == 63);
+    kani::cover!(!r && i == 0);
+    kani::cover!(n == 1 && i == 7);
+}
+
+// Contract (C19): get_bit never rejects an index that addresses a byte of the slice.
+// @unit name=get_bit_total props=C19 kind=complete fns=get_bit timeout=60
+#[kani::proof]
+fn get_bit_total() {
+    let d: [u8; 8] = kani::any();
+    let n: usize = kani::any();
+    kani::assume(n <= 8);
+    let i: usize = kani::any();
+    kani::assume(i / 8 < n);
+    let r = get_bit(&d[..n], i);
+    assert!(r == bit(&d, i));
+    kani::cover!(r);
+    kani::cover!(!r);
+}
+
+// Contract (C19): set_bit(s, i) for every i with i/8 < len(s): afterwards bit j of the WHOLE
+// enclosing buffer (including bytes after the slice) is: true if j == i, the old bit otherwise.
+// Rejects (index panic) exactly when i/8 >= len(s). set_bit_raw writes the identical result.
+// @unit name=set_bit_contract props=C19 kind=complete fns=set_bit,set_bit_raw mayreject=1 timeout=60
+#[kani::proof]
+fn set_bit_contract() {
+    let mut d: [u8; 8] = kani::any();
+    let n: usize = kani::any();
+    kani::assume(n <= 8);
+    let i: usize = kani::any();
+    let old = d;
+    let mut d2 = d;
+    set_bit(&mut d[..n], i);
+    assert!(i / 8 < n);
+    unsafe { set_bit_raw(d2.as_mut_ptr(), i) };
+    let j: usize = kani::any();
+    kani::assume(j < 64);
+    assert!(bit(&d, j) == (j == i || bit(&old, j)));
+    assert!(d2 == d);
+    kani::cover!(j == i && !bit(&old, j));
+    kani::cover!(j != i && j / 8 == i / 8 && bit(&old, j));
+    kani::cover!(j != i && j / 8 == i / 8 && !bit(&old, j));
+    kani::cover!(j / 8 >= n);
+}
+
+// Contract (C19): set_bit does not reject an in-range index (companion of set_bit_contract).
+// @unit name=set_unset_bit_total props=C19 kind=complete fns=set_bit,unset_bit timeout=60
+#[kani::proof]
+fn set_unset_bit_total() {
+    let mut d: [u8; 8] = kani::any();
+    let n: usize = kani::any();
+    kani::assume(n <= 8);
+    let i: usize = kani::any();
+    kani::assume(i / 8 < n);
+    let old = d;
+    set_bit(&mut d[..n], i);
+    assert!(bit(&d, i));
+    unset_bit(&mut d[..n], i);
+    assert!(!bit(&d, i));
+    let j: usize = kani::any();
+    kani::assume(j < 64 && j != i);
+    assert!(bit(&d, j) == bit(&old, j));
+    kani::cover!(bit(&old, i));
+    kani::cover!(!bit(&old, i));
+}
+
+// Contract (C19): unset_bit(s, i): afterwards bit j of the whole enclosing buffer is: false if
+// j == i, the old bit otherwise. Rejects exactly when i/8 >= len(s). unset_bit_raw identical.
+// @unit name=unset_bit_contract props=C19 kind=complete fns=unset_bit,unset_bit_raw mayreject=1 timeout=60
+#[kani::proof]
+fn unset_bit_contract() {
+    let mut d: [u8; 8] = kani::any();
+    let n: usize = kani::any();
+    kani::assume(n <= 8);
+    let i: usize = kani::any();
+    let old = d;
+    let mut d2 = d;
+    unset_bit(&mut d[..n], i);
+    assert!(i / 8 < n);
+    unsafe { unset_bit_raw(d2.as_mut_ptr(), i) };
+    let j: usize = kani::any();
+    kani::assume(j < 64);
+    assert!(bit(&d, j) == (j != i && bit(&old, j)));
+    assert!(d2 == d);
+    kani::cover!(j == i && bit(&old, j));
+    kani::cover!(j != i && j / 8 == i / 8 && bit(&old, j));
+    kani::cover!(j != i && j / 8 == i / 8 && !bit(&old, j));
+    kani::cover!(j / 8 >= n);
+}
+
+// ------------------------------------------------------------------------------------------------
+// ceil, round_upto_multiple_of_64, round_upto_power_of_2
+// ------------------------------------------------------------------------------------------------
+
+// Contract (C19, sizing arithmetic used by every bit kernel): for the constant divisor K and EVERY
+// usize value v, q = ceil(v, K) is the least q with q*K >= v, i.e. (in u128, multiplication by a
+// constant only - see the "no 64-bit nonlinear spec" rule) q*K >= v and q*K - v < K. Never panics.
+macro_rules! ceil_const {
+    ($name:ident, $k:expr) => {
+        #[kani::proof]
+        fn $name() {
+            let v: usize = kani::any();
+            let q = ceil(v, $k);
+            let (qk, vv) = ((q as u128) * ($k as u128), v as u128);
+            assert!(qk >= vv && qk - vv < ($k as u128));
+            kani::cover!(v == usize::MAX);
+            kani::cover!(v == 0 && q == 0);
+            kani::cover!(qk - vv == ($k as u128) - 1);
+        }
+    };
+}
+// @unit name=ceil_div_8 props=C19 kind=complete fns=ceil timeout=120
+ceil_const!(ceil_div_8, 8usize);
+// @unit name=ceil_div_64 props=C19 kind=complete fns=ceil timeout=120
+ceil_const!(ceil_div_64, 64usize);
+// @unit name=ceil_div_1 props=C19 kind=complete fns=ceil timeout=120
+ceil_const!(ceil_div_1, 1usize);
+// @unit name=ceil_div_3 props=C19 kind=complete fns=ceil timeout=240
+ceil_const!(ceil_div_3, 3usize);
+
+// Contract (C19): ceil(v, d) for symbolic v and symbolic d > 0, both below 2^12 (narrow so that the
+// product on the spec side stays cheap): least q with q*d >= v.
+// @unit name=ceil_small props=C19 kind=bounded bound=value<4096_divisor<4096 fns=ceil timeout=240
+#[kani::proof]
+fn ceil_small() {
+    let v: usize = kani::any();
+    let d: usize = kani::any();
+    kani::assume(v < 4096 && d > 0 && d < 4096);
+    let q = ceil(v, d);
+    assert!(q * d >= v && q * d - v < d);
+    kani::cover!(q * d == v && v > 0);
+    kani::cover!(q * d - v == d - 1 && d > 1);
+}
+
+// Contract (C19): round_upto_multiple_of_64(n) for EVERY n for which a multiple of 64 that is >= n
+// exists in usize (n <= usize::MAX - 63): does not panic and returns r with r >= n, r - n < 64,
+// r % 64 == 0 (so r is the least such multiple).
+// @unit name=round_upto_multiple_of_64_ok props=C19 kind=complete fns=round_upto_multiple_of_64 timeout=60
+#[kani::proof]
+fn round_upto_multiple_of_64_ok() {
+    let n: usize = kani::any();
+    kani::assume(n <= usize::MAX - 63);
+    let r = round_upto_multiple_of_64(n);
+    assert!(r >= n && r - n < 64 && r % 64 == 0);
+    kani::cover!(r == n && n > 0);
+    kani::cover!(r - n == 63);
+    kani::cover!(n == usize::MAX - 63);
+}
+
+// Contract (C19): round_upto_multiple_of_64 panics (rejects) on EVERY n whose rounding overflows:
+// if the call returns, then n <= usize::MAX - 63 and the result is the least multiple.
+// @unit name=round_upto_multiple_of_64_rejects props=C19 kind=complete fns=round_upto_multiple_of_64 mayreject=1 timeout=60
+#[kani::proof]
+fn round_upto_multiple_of_64_rejects() {
+    let n: usize = kani::any();
+    let r = round_upto_multiple_of_64(n);
+    assert!(n <= usize::MAX - 63);
+    assert!(r >= n && r - n < 64 && r % 64 == 0);
+    kani::cover!(n == usize::MAX - 63);
+    kani::cover!(n == 0);
+}
+
+// Contract (C19): round_upto_power_of_2(n, f) for EVERY n and EVERY power of two f = 2^s (s in
+// 0..64, the documented precondition) such that a multiple of f that is >= n exists in usize
+// (n <= 2^64 - f): does not panic, r >= n, r - n < f, r is a multiple of f. "Multiple of f" is
+// written as r & (f-1) == 0, which for a power of two is the definition of r % f == 0 without a
+// 64-bit symbolic division.
+// @unit name=round_upto_power_of_2_ok props=C19 kind=complete fns=round_upto_power_of_2 timeout=120
+#[kani::proof]
+fn round_upto_power_of_2_ok() {
+    let n: usize = kani::any();
+    let s: u32 = kani::any();
+    kani::assume(s < 64);
+    let f: usize = 1usize << s;
+    kani::assume(n <= (usize::MAX - f) + 1);
+    let r = round_upto_power_of_2(n, f);
+    assert!(r >= n && r - n < f && r & (f - 1) == 0);
+    kani::cover!(s == 63 && n == 1);
+    kani::cover!(s == 0 && n == usize::MAX);
+    kani::cover!(r == n && n > 0 && s == 6);
+    kani::cover!(r - n == f - 1 && s == 6);
+}
+
+// Contract (C19): round_upto_power_of_2 panics (rejects) exactly when the rounding overflows:
+// if the call returns then n <= 2^64 - f, and the result is the least multiple.
+// @unit name=round_upto_power_of_2_rejects props=C19 kind=complete fns=round_upto_power_of_2 mayreject=1 timeout=120
+#[kani::proof]
+fn round_upto_power_of_2_rejects() {
+    let n: usize = kani::any();
+    let s: u32 = kani::any();
+    kani::assume(s < 64);
+    let f: usize = 1usize << s;
+    let r = round_upto_power_of_2(n, f);
+    assert!(n <= (usize::MAX - f) + 1);
+    assert!(r >= n && r - n < f && r & (f - 1) == 0);
+    kani::cover!(n == (usize::MAX - f) + 1 && s == 3);
+    kani::cover!(n == 0);
+}
+
+// ------------------------------------------------------------------------------------------------
+// read_u64, read_up_to_byte_from_offset
+// ------------------------------------------------------------------------------------------------
+
+// Contract (C19): read_u64(s) for EVERY slice of 0..=8 bytes (all call sites pass at most 8 bytes):
+// bit p of the result (p in 0..64) is bit(s, p) if p < 8*len(s) and 0 otherwise (zero padding);
+// bytes of the enclosing buffer after the slice are not read as data.
+// @unit name=read_u64_contract props=C19 kind=complete fns=read_u64 timeout=120
+#[kani::proof]
+#[kani::unwind(10)]
+fn read_u64_contract() {
+    let d: [u8; 10] = kani::any();
+    let n: usize = kani::any();
+    kani::assume(n <= 8);
+    let w = read_u64(&d[..n]);
+    let p: usize = kani::any();
+    kani::assume(p < 64);
+    assert!(wbit(w, p) == (p < 8 * n && bit(&d, p)));
+    kani::cover!(n == 0);
+    kani::cover!(n == 8 && wbit(w, 63));
+    kani::cover!(n == 3 && p == 24 && bit(&d, p)); // a set bit just behind the slice is not seen
+}
+
+// Contract (C19): read_up_to_byte_from_offset(s, k, o) with 1 <= k < 8, o < 8 and
+// len(s) >= ceil(k+o, 8) (the documented precondition): never panics; bit p (p in 0..8) of the
+// result is bit(s, o+p) for p < k and 0 for p >= k: the k addressed bits, zero padded; the slice
+// may be longer than needed and the extra bytes / the bits beyond o+k are not read as data.
+// @unit name=read_up_to_byte_ok props=C19 kind=complete fns=read_up_to_byte_from_offset timeout=120
+#[kani::proof]
+#[kani::unwind(10)]
+fn read_up_to_byte_ok() {
+    let d: [u8; 4] = kani::any();
+    let n: usize = kani::any();
+    let k: usize = kani::any();
+    let o: usize = kani::any();
+    kani::assume(n <= 4 && k >= 1 && k < 8 && o < 8 && n >= (k + o + 7) / 8);
+    let r = read_up_to_byte_from_offset(&d[..n], k, o);
+    let p: usize = kani::any();
+    kani::assume(p < 8);
+    assert!(((r >> p) & 1 == 1) == (p < k && bit(&d, o + p)));
+    kani::cover!(o + k > 8 && p + o >= 8 && p < k && bit(&d, o + p)); // bit taken from the 2nd byte
+    kani::cover!(o + k == 8);
+    kani::cover!(o + k < 8 && p >= k && p + o < 8 && bit(&d, o + p)); // set bit beyond the range is masked
+    kani::cover!(n == 4 && k == 1 && o == 0);
+}
+
+// Contract (C19): read_up_to_byte_from_offset panics (rejects) on EVERY argument triple outside
+// the documented domain (k == 0, k >= 8, o >= 8, empty or too short slice): if the call returns,
+// the arguments were inside it and the result is the addressed bits.
+// @unit name=read_up_to_byte_rejects props=C19 kind=complete fns=read_up_to_byte_from_offset mayreject=1 timeout=120
+#[kani::proof]
+#[kani::unwind(10)]
+#[kani::stub(alloc::fmt::format, stub_format)]
+fn read_up_to_byte_rejects() {
+    let d: [u8; 4] = kani::any();
+    let n: usize = kani::any();
+    let k: usize = kani::any();
+    let o: usize = kani::any();
+    kani::assume(n <= 4);
+    let r = read_up_to_byte_from_offset(&d[..n], k, o);
+    assert!(k >= 1 && k < 8 && o < 8 && n >= 1 && n >= (k + o + 7) / 8);
+    let p: usize = kani::any();
+    kani::assume(p < 8);
+    assert!(((r >> p) & 1 == 1) == (p < k && bit(&d, o + p)));
+    kani::cover!(o + k > 8);
+    kani::cover!(n == 1);
+}
+
+// ------------------------------------------------------------------------------------------------
+// get_remainder_bits, set_remainder_bits, handle_mutable_buffer_remainder(_unary)
+// ------------------------------------------------------------------------------------------------
+
+// Contract (C19): get_remainder_bits(s, L) for EVERY L in 0..64 and the slice s of exactly
+// ceil(L/8) bytes placed anywhere in a larger buffer: bit p (p in 0..64) of the result is
+// bit(s, p) for p < L and 0 for p >= L; the bits of the last byte above L are not read as data.
+// @unit name=get_remainder_bits_contract props=C19 kind=complete fns=get_remainder_bits timeout=120
+#[kani::proof]
+#[kani::unwind(10)]
+fn get_remainder_bits_contract() {
+    let d: [u8; 10] = kani::any();
+    let l: usize = kani::any();
+    let s: usize = kani::any();
+    kani::assume(l < 64 && s <= 2);
+    let nb = (l + 7) / 8;
+    let w = get_remainder_bits(&d[s..s + nb], l);
+    let p: usize = kani::any();
+    kani::assume(p < 64);
+    assert!(wbit(w, p) == (p < l && bit(&d, 8 * s + p)));
+    kani::cover!(l == 0);
+    kani::cover!(l == 63 && wbit(w, 62));
+    kani::cover!(l % 8 != 0 && p >= l && p < 8 * nb && bit(&d, 8 * s + p)); // out-of-range set bit in the boundary byte
+    kani::cover!(l == 8);
+}
+
+// Contract (C19): set_remainder_bits(s, w, L) for EVERY L in 1..64, EVERY word w and the slice s
+// of exactly ceil(L/8) bytes placed anywhere in a larger buffer: afterwards bit p of s is bit p of
+// w for p < L; every other bit of the enclosing buffer (the bits of the boundary byte above L,
+// bytes before and after the slice) is unchanged; the bits of w at and above L are ignored.
+// @unit name=set_remainder_bits_contract props=C19 kind=complete fns=set_remainder_bits timeout=120
+#[kani::proof]
+#[kani::unwind(10)]
+#[kani::stub(alloc::fmt::format, stub_format)]
+fn set_remainder_bits_contract() {
+    let mut d: [u8; 10] = kani::any();
+    let l: usize = kani::any();
+    let s: usize = kani::any();
+    let w: u64 = kani::any();
+    kani::assume(l >= 1 && l < 64 && s <= 2);
+    let nb = (l + 7) / 8;
+    let old = d;
+    set_remainder_bits(&mut d[s..s + nb], w, l);
+    let j: usize = kani::any();
+    kani::assume(j < 80);
+    if j >= 8 * s && j < 8 * s + l {
+        assert!(bit(&d, j) == wbit(w, j - 8 * s));
+    } else {
+        assert!(bit(&d, j) == bit(&old, j));
+    }
+    kani::cover!(l == 63);
+    kani::cover!(l == 1 && s == 2);
+    kani::cover!(l % 8 != 0 && j >= 8 * s + l && j < 8 * (s + nb) && bit(&old, j) && !wbit(w, j - 8 * s));
+    kani::cover!(l % 8 != 0 && j >= 8 * s + l && j < 8 * (s + nb) && !bit(&old, j) && wbit(w, j - 8 * s));
+    kani::cover!(l > 8 && j >= 8 * s && j < 8 * s + l && bit(&old, j) != wbit(w, j - 8 * s));
+}
+
+// Contract (C19): handle_mutable_buffer_remainder_unary(op, s, L), 1 <= L < 64, s exactly ceil(L/8)
+// bytes inside a larger buffer, op an ARBITRARY function (it returns a nondeterministic word and
+// records what it was given): op is called exactly once, its argument is the L addressed bits zero
+// padded, bits [0, L) of s become the low L bits of op's result, every other bit is unchanged.
+// @unit name=remainder_unary_contract props=C19 kind=complete fns=handle_mutable_buffer_remainder_unary,get_remainder_bits,set_remainder_bits timeout=240
+#[kani::proof]
+#[kani::unwind(10)]
+#[kani::stub(alloc::fmt::format, stub_format)]
+fn remainder_unary_contract() {
+    let mut d: [u8; 10] = kani::any();
+    let l: usize = kani::any();
+    let s: usize = kani::any();
+    let ret: u64 = kani::any();
+    kani::assume(l >= 1 && l < 64 && s <= 2);
+    let nb = (l + 7) / 8;
+    let old = d;
+    let (mut calls, mut seen) = (0usize, 0u64);
+    let mut op = |a: u64| {
+        calls += 1;
+        seen = a;
+        ret
+    };
+    handle_mutable_buffer_remainder_unary(&mut op, &mut d[s..s + nb], l);
+    assert!(calls == 1);
+    let p: usize = kani::any();
+    kani::assume(p < 64);
+    assert!(wbit(seen, p) == (p < l && bit(&old, 8 * s + p)));
+    let j: usize = kani::any();
+    kani::assume(j < 80);
+    if j >= 8 * s && j < 8 * s + l {
+        assert!(bit(&d, j) == wbit(ret, j - 8 * s));
+    } else {
+        assert!(bit(&d, j) == bit(&old, j));
+    }
+    kani::cover!(l == 63);
+    kani::cover!(l % 8 != 0 && p >= l && p < 8 * nb && bit(&old, 8 * s + p));
+    kani::cover!(l % 8 != 0 && j >= 8 * s + l && j < 8 * (s + nb) && bit(&old, j) && !wbit(ret, j - 8 * s));
+}
+
+// Contract (C19): handle_mutable_buffer_remainder(op, s, r, L): as the unary form; op receives
+// (the L addressed bits of s zero padded, r unchanged) exactly once.
+// @unit name=remainder_binary_contract props=C19 kind=complete fns=handle_mutable_buffer_remainder,get_remainder_bits,set_remainder_bits timeout=240
+#[kani::proof]
+#[kani::unwind(10)]
+#[kani::stub(alloc::fmt::format, stub_format)]
+fn remainder_binary_contract() {
+    let mut d: [u8; 10] = kani::any();
+    let l: usize = kani::any();
+    let s: usize = kani::any();
+    let ret: u64 = kani::any();
+    let right: u64 = kani::any();
+    kani::assume(l >= 1 && l < 64 && s <= 2);
+    let nb = (l + 7) / 8;
+    let old = d;
+    let (mut calls, mut seen_l, mut seen_r) = (0usize, 0u64, 0u64);
+    let mut op = |a: u64, b: u64| {
+        calls += 1;
+        seen_l = a;
+        seen_r = b;
+        ret
+    };
+    handle_mutable_buffer_remainder(&mut op, &mut d[s..s + nb], right, l);
+    assert!(calls == 1 && seen_r == right);
+    let p: usize = kani::any();
+    kani::assume(p < 64);
+    assert!(wbit(seen_l, p) == (p < l && bit(&old, 8 * s + p)));
+    let j: usize = kani::any();
+    kani::assume(j < 80);
+    if j >= 8 * s && j < 8 * s + l {
+        assert!(bit(&d, j) == wbit(ret, j - 8 * s));
+    } else {
+        assert!(bit(&d, j) == bit(&old, j));
+    }
+    kani::cover!(l == 63);
+    kani::cover!(l % 8 != 0 && j >= 8 * s + l && j < 8 * (s + nb) && bit(&old, j) && !wbit(ret, j - 8 * s));
+}
+
+// ------------------------------------------------------------------------------------------------
+// align_to_byte
+// ------------------------------------------------------------------------------------------------
+
+// Contract (C19): align_to_byte(buf, op, off, rem) with off % 8 != 0 (the documented precondition),
+// off/8 < len(buf), EVERY rem in 0..=200 and op an ARBITRARY function. Let k = min(8 - off%8, rem)
+// be the number of addressed bits (they all lie in byte off/8). Then op is called exactly once;
+// bit p of its argument is bit(buf, off+p) for p < k, and is 0 for every p >= 8 - off%8 (nothing
+// from another byte); afterwards bit off+p of buf is bit p of op's result for p < k, and EVERY other
+// bit of the buffer - below off, from off+k to the end of the byte, all other bytes - is unchanged.
+// (What op sees in positions k <= p < 8 - off%8 is specified by the stricter, separately kept
+// harness `align_to_byte_op_sees_only_range` below.)
+// @unit name=align_to_byte_contract props=C19 kind=complete fns=align_to_byte timeout=120
+#[kani::proof]
+#[kani::unwind(10)]
+#[kani::stub(alloc::fmt::format, stub_format)]
+fn align_to_byte_contract() {
+    let mut d: [u8; 4] = kani::any();
+    let off: usize = kani::any();
+    let rem: usize = kani::any();
+    let ret: u64 = kani::any();
+    kani::assume(off < 32 && off % 8 != 0 && rem <= 200);
+    let k = if 8 - off % 8 < rem { 8 - off % 8 } else { rem };
+    let old = d;
+    let (mut calls, mut seen) = (0usize, 0u64);
+    let mut op = |a: u64| {
+        calls += 1;
+        seen = a;
+        ret
+    };
+    align_to_byte(&mut d, &mut op, off, rem);
+    assert!(calls == 1);
+    let p: usize = kani::any();
+    kani::assume(p < 64);
+    if p < k {
+        assert!(wbit(seen, p) == bit(&old, off + p));
+    } else if p >= 8 - off % 8 {
+        assert!(!wbit(seen, p));
+    }
+    let j: usize = kani::any();
+    kani::assume(j < 32);
+    if j >= off && j < off + k {
+        assert!(bit(&d, j) == wbit(ret, j - off));
+    } else {
+        assert!(bit(&d, j) == bit(&old, j));
+    }
+    kani::cover!(rem == 0);
+    kani::cover!(rem == 1 && off % 8 == 7);
+    kani::cover!(k < 8 - off % 8 && j >= off + k && j / 8 == off / 8 && bit(&old, j) != wbit(ret, j - off));
+    kani::cover!(j < off && j / 8 == off / 8 && bit(&old, j));
+    kani::cover!(rem > 8 && j >= off && j < off + k && bit(&old, j) != wbit(ret, j - off));
+}
+
+// STRICT clause of C19 ("bits outside the addressed range are not read as data") for align_to_byte:
+// the argument handed to op is the k addressed bits ZERO PADDED, as it is in the remainder path
+// (get_remainder_bits masks). This FAILS on the unchanged code whenever the range ends inside the
+// first byte (rem < 8 - off%8): op receives `byte >> off%8`, i.e. also the bits off+k .. end of
+// byte, which lie outside the range. Example: buf=[0xFF], off=1, rem=2: op is called with 0x7F,
+// not 0b11. The result is masked, so bit-local ops (and/or/xor/not) are unaffected; an op that is
+// not bit-local (popcount side effects, arithmetic) observes out-of-range data.
+// Kept as a harness but NOT registered as a unit (it is red on the unchanged tree): see REPORT.md.
+// finding-harness name=align_to_byte_op_sees_only_range props=C19 fns=align_to_byte,apply_bitwise_unary_op,apply_bitwise_binary_op
+#[kani::proof]
+#[kani::unwind(10)]
+#[kani::stub(alloc::fmt::format, stub_format)]
+fn align_to_byte_op_sees_only_range() {
+    let mut d: [u8; 2] = kani::any();
+    let off: usize = kani::any();
+    let rem: usize = kani::any();
+    kani::assume(off < 16 && off % 8 != 0 && rem >= 1 && rem <= 200);
+    let k = if 8 - off % 8 < rem { 8 - off % 8 } else { rem };
+    let old = d;
+    let mut seen = 0u64;
+    let mut op = |a: u64| {
+        seen = a;
+        a
+    };
+    align_to_byte(&mut d, &mut op, off, rem);
+    let p: usize = kani::any();
+    kani::assume(p < 64);
+    assert!(wbit(seen, p) == (p < k && bit(&old, off + p)));
+}
+
+// ------------------------------------------------------------------------------------------------
+// U64UnalignedSlice::{split, len, zip_modify, apply_unary_op}
+// ------------------------------------------------------------------------------------------------
+
+// Contract (C19): U64UnalignedSlice::split(buf, off, len) with off % 8 == 0 (both callers assert
+// it), buf of n <= 32 bytes, EVERY off/len <= 400: rejects (assert) exactly when
+// ceil((off+len)/8) > n; otherwise the word view starts at byte off/8 and has len/64 words, and
+// the returned remainder slice is exactly bytes [off/8 + 8*(len/64), ceil((off+len)/8)) of buf
+// (so it has ceil((len%64)/8) < 8 bytes). Nothing is written.
+// @unit name=u64_split_contract props=C19 kind=bounded bound=buffer<=32_bytes_offset,len<=400_bits fns=U64UnalignedSlice::split,U64UnalignedSlice::len mayreject=1 timeout=120
+#[kani::proof]
+#[kani::unwind(10)]
+fn u64_split_contract() {
+    let mut d: [u8; 32] = kani::any();
+    let n: usize = kani::any();
+    let off: usize = kani::any();
+    let len: usize = kani::any();
+    kani::assume(n <= 32 && off <= 400 && len <= 400 && off % 8 == 0);
+    let old = d;
+    let base = d.as_ptr();
+    let (words, rest) = U64UnalignedSlice::split(&mut d[..n], off, len);
+    let last = (off + len + 7) / 8;
+    assert!(last <= n); // reached => the range fits
+    assert!(words.len() == len / 64);
+    assert!(words.ptr as *const u8 == unsafe { base.add(off / 8) });
+    assert!(rest.as_ptr() == unsafe { base.add(off / 8 + 8 * (len / 64)) });
+    assert!(rest.len() == last - (off / 8 + 8 * (len / 64)));
+    assert!(rest.len() == (len % 64 + 7) / 8);
+    kani::cover!(len == 0 && off / 8 == n);
+    kani::cover!(len / 64 == 3 && rest.len() == 7);
+    kani::cover!(len == 64 && rest.len() == 0 && off == 8);
+    let j: usize = kani::any();
+    kani::assume(j < 32);
+    assert!(d[j] == old[j]);
+}
+
+// Contract (C19): split does not reject a range that fits (companion of u64_split_contract).
+// @unit name=u64_split_total props=C19 kind=bounded bound=buffer<=32_bytes fns=U64UnalignedSlice::split timeout=120
+#[kani::proof]
+#[kani::unwind(10)]
+fn u64_split_total() {
+    let mut d: [u8; 32] = kani::any();
+    let n: usize = kani::any();
+    let off: usize = kani::any();
+    let len: usize = kani::any();
+    kani::assume(n <= 32 && off <= 400 && len <= 400 && off % 8 == 0 && (off + len + 7) / 8 <= n);
+    let (words, rest) = U64UnalignedSlice::split(&mut d[..n], off, len);
+    assert!(words.len() == len / 64 && rest.len() == (len % 64 + 7) / 8);
+    kani::cover!(len == 0);
+    kani::cover!(len == 192 && off == 64);
+}
+
+/// little-endian word k of the byte sequence starting at byte `b0` (specification helper)
+fn le_word(s: &[u8], b0: usize, k: usize) -> u64 {
+    let mut w = 0u64;
+    let mut i = 0;
+    while i < 8 {
+        w |= (s[b0 + 8 * k + i] as u64) << (8 * i);
+        i += 1;
+    }
+    w
+}
+
+// Contract (C19): U64UnalignedSlice::apply_unary_op(map) on the view of nw <= 3 words starting at
+// any byte b0 of a 32-byte buffer (any alignment), map an ARBITRARY FnMut (nondeterministic result
+// per call, arguments recorded): map is called exactly nw times, the k-th call receives the
+// little-endian word made of the old bytes [b0+8k, b0+8k+8), those bytes become the little-endian
+// bytes of the k-th result, and every other byte of the buffer is unchanged.
+// @unit name=u64_apply_unary_contract props=C19 kind=bounded bound=words<=3_buffer=32_bytes fns=U64UnalignedSlice::apply_unary_op,U64UnalignedSlice::apply_bin_op timeout=240
+#[kani::proof]
+#[kani::unwind(10)]
+fn u64_apply_unary_contract() {
+    let mut d: [u8; 32] = kani::any();
+    let b0: usize = kani::any();
+    let nw: usize = kani::any();
+    kani::assume(b0 <= 8 && nw <= 3);
+    let old = d;
+    let rets: [u64; 3] = kani::any();
+    let mut args = [0u64; 3];
+    let mut calls = 0usize;
+    let (words, _rest) = U64UnalignedSlice::split(&mut d, 8 * b0, 64 * nw);
+    words.apply_unary_op(|a| {
+        assert!(calls < 3);
+        args[calls] = a;
+        calls += 1;
+        rets[calls - 1]
+    });
+    assert!(calls == nw);
+    let k: usize = kani::any();
+    if k < nw {
+        assert!(args[k] == le_word(&old, b0, k));
+        assert!(le_word(&d, b0, k) == rets[k]);
+    }
+    let j: usize = kani::any();
+    kani::assume(j < 32 && (j < b0 || j >= b0 + 8 * nw));
+    assert!(d[j] == old[j]);
+    kani::cover!(nw == 0);
+    kani::cover!(nw == 3 && b0 == 5 && k == 2);
+    kani::cover!(nw == 1 && j == b0 + 8);
+}
+
+// Contract (C19): U64UnalignedSlice::zip_modify(iter, map): as apply_unary_op, with the k-th call
+// receiving (old word k, k-th item of the iterator); rejects unless the iterator has exactly nw items.
+// @unit name=u64_zip_modify_contract props=C19 kind=bounded bound=words<=3_buffer=32_bytes fns=U64UnalignedSlice::zip_modify,U64UnalignedSlice::apply_bin_op timeout=240
+#[kani::proof]
+#[kani::unwind(10)]
+#[kani::stub(alloc::fmt::format, stub_format)]
+fn u64_zip_modify_contract() {
+    let mut d: [u8; 32] = kani::any();
+    let b0: usize = kani::any();
+    let nw: usize = kani::any();
+    kani::assume(b0 <= 8 && nw <= 3);
+    let old = d;
+    let rets: [u64; 3] = kani::any();
+    let rights: [u64; 3] = kani::any();
+    let mut largs = [0u64; 3];
+    let mut rargs = [0u64; 3];
+    let mut calls = 0usize;
+    let (words, _rest) = U64UnalignedSlice::split(&mut d, 8 * b0, 64 * nw);
+    words.zip_modify(rights[..nw].iter().copied(), |a, b| {
+        assert!(calls < 3);
+        largs[calls] = a;
+        rargs[calls] = b;
+        calls += 1;
+        rets[calls - 1]
+    });
+    assert!(calls == nw);
+    let k: usize = kani::any();
+    if k < nw {
+        assert!(largs[k] == le_word(&old, b0, k) && rargs[k] == rights[k]);
+        assert!(le_word(&d, b0, k) == rets[k]);
+    }
+    let j: usize = kani::any();
+    kani::assume(j < 32 && (j < b0 || j >= b0 + 8 * nw));
+    assert!(d[j] == old[j]);
+    kani::cover!(nw == 0);
+    kani::cover!(nw == 3 && b0 == 5 && k == 2);
+    kani::cover!(nw == 1 && j == b0 + 8);
+}
+
+// ------------------------------------------------------------------------------------------------
+// apply_bitwise_unary_op / apply_bitwise_binary_op (in place, raw slices, no allocation)
+// ------------------------------------------------------------------------------------------------
+
+/// Specification of the documented word-at-a-time chunking of the range [off, off+len):
+/// an optional head chunk that reaches the next byte boundary (only when off is not byte aligned),
+/// then 64-bit words, then one remainder chunk of < 64 bits.
+/// Returns (number of chunks, start bit of chunk c, length of chunk c).
+fn chunk_of(off: usize, len: usize, c: usize) -> (usize, usize, usize) {
+    let h = if off % 8 == 0 { 0 } else if 8 - off % 8 < len { 8 - off % 8 } else { len };
+    let hc = if h > 0 { 1 } else { 0 };
+    let body = len - h;
+    let n = hc + body / 64 + if body % 64 != 0 { 1 } else { 0 };
+    if c < hc {
+        (n, off, h)
+    } else {
+        let k = c - hc;
+        let left = body - 64 * k;
+        (n, off + h + 64 * k, if left < 64 { left } else { 64 })
+    }
+}
+
+const NB: usize = 24;
+
+// Contract (C19): apply_bitwise_unary_op(buf, off, len, op) on a 24-byte buffer, EVERY off and len
+// with off+len <= 192, op an ARBITRARY FnMut (each call returns a fresh nondeterministic word and
+// records its argument). With the chunks of `chunk_of`: op is called once per chunk, in order;
+// the argument of call c is the addressed bits of chunk c (bit p = bit(buf, start_c + p) for
+// p < len_c) and carries no bit of any other byte (0 for p >= len_c; for the head chunk 0 for
+// p >= 8 - off%8, see align_to_byte_contract); afterwards bit start_c + p of buf is bit p of the
+// c-th result for p < len_c; EVERY bit outside [off, off+len) is unchanged, including the bits
+// sharing a byte with either end. len == 0: op is not called, nothing changes.
+// @unit name=apply_unary_op_contract props=C19 kind=bounded bound=buffer=24_bytes_all_offsets_and_lengths fns=apply_bitwise_unary_op,byte_aligned_bitwise_unary_op_helper,align_to_byte,handle_mutable_buffer_remainder_unary,U64UnalignedSlice::split,U64UnalignedSlice::apply_unary_op timeout=600
+#[kani::proof]
+#[kani::unwind(10)]
+#[kani::stub(alloc::fmt::format, stub_format)]
+fn apply_unary_op_contract() {
+    let mut d: [u8; NB] = kani::any();
+    let off: usize = kani::any();
+    let len: usize = kani::any();
+    kani::assume(off <= 8 * NB && len <= 8 * NB && off + len <= 8 * NB);
+    let old = d;
+    let rets: [u64; 4] = kani::any();
+    let mut args = [0u64; 4];
+    let mut calls = 0usize;
+    apply_bitwise_unary_op(&mut d, off, len, |a| {
+        assert!(calls < 4);
+        args[calls] = a;
+        calls += 1;
+        rets[calls - 1]
+    });
+    let (n, _, _) = chunk_of(off, len, 0);
+    assert!(calls == n);
+    // what op was given
+    let c: usize = kani::any();
+    let p: usize = kani::any();
+    kani::assume(p < 64);
+    if c < n {
+        let (_, start, clen) = chunk_of(off, len, c);
+        if p < clen {
+            assert!(wbit(args[c], p) == bit(&old, start + p));
+        } else if !(start == off && off % 8 != 0) || p >= 8 - off % 8 {
+            assert!(!wbit(args[c], p));
+        }
+        // what was written
+        if p < clen {
+            assert!(bit(&d, start + p) == wbit(rets[c], p));
+        }
+    }
+    // frame
+    let j: usize = kani::any();
+    kani::assume(j < 8 * NB);
+    if j < off || j >= off + len {
+        assert!(bit(&d, j) == bit(&old, j));
+    }
+    kani::cover!(len == 0);
+    kani::cover!(n == 4 && c == 3);
+    kani::cover!(off == 0 && n == 3 && len == 192);
+    kani::cover!(off % 8 != 0 && len < 8 - off % 8 && j / 8 == off / 8 && j >= off + len);
+    kani::cover!(off % 8 == 3 && len == 5 + 64 + 13 && c == 2 && p == 12);
+    kani::cover!(j >= off + len && j / 8 == (off + len) / 8 && len > 70 && bit(&old, j));
+}
+
+// Contract (C19): apply_bitwise_binary_op(left, loff, right, roff, len, op) on 24-byte buffers,
+// op an ARBITRARY FnMut (fresh nondeterministic word per call, arguments recorded). With the chunks
+// of `chunk_of(loff, len)`: op is called once per chunk, in order; call c receives (the addressed
+// bits of chunk c of left - as in apply_unary_op_contract -, the bits
+// [roff + (start_c - loff), + len_c) of right ZERO PADDED to 64 bits); afterwards bit start_c + p
+// of left is bit p of the c-th result for p < len_c; EVERY bit of left outside [loff, loff+len) is
+// unchanged, including the bits sharing a byte with either end; len == 0: op is not called.
+// Thorough unit `apply_binary_op_contract`: EVERY loff, roff, len with loff+len <= 192 and
+// roff+len <= 192 (all symbolic, measured ~210-260 s).
+// Quick units: the same contract with (loff, roff) = (0,0) and EVERY length, and at concrete
+// (loff, roff, len) shapes for the shifted right side / the unaligned left side (measured: a
+// symbolic length on those paths costs 70 - 230 s); contents and op results always symbolic.
+struct BinCtx {
+    off: usize,
+    roff: usize,
+    len: usize,
+    n: usize,
+    c: usize,
+    p: usize,
+    j: usize,
+    /// (c, p) addresses a bit of the range and the written bit differs from the old one
+    flipped: bool,
+    /// j is outside the range and was set before the call
+    frame_bit_set: bool,
+}
+fn apply_binary_op_check(off: usize, roff: usize, len: usize, covers: impl FnOnce(BinCtx)) {
+    let mut d: [u8; NB] = kani::any();
+    let r: [u8; NB] = kani::any();
+    kani::assume(off <= 8 * NB && roff <= 8 * NB && len <= 8 * NB && off + len <= 8 * NB && roff + len <= 8 * NB);
+    let old = d;
+    let rets: [u64; 4] = kani::any();
+    let mut largs = [0u64; 4];
+    let mut rargs = [0u64; 4];
+    let mut calls = 0usize;
+    apply_bitwise_binary_op(&mut d, off, &r, roff, len, |a, b| {
+        assert!(calls < 4);
+        largs[calls] = a;
+        rargs[calls] = b;
+        calls += 1;
+        rets[calls - 1]
+    });
+    let (n, _, _) = chunk_of(off, len, 0);
+    assert!(calls == n);
+    let c: usize = kani::any();
+    let p: usize = kani::any();
+    kani::assume(p < 64);
+    let mut flipped = false;
+    if c < n {
+        let (_, start, clen) = chunk_of(off, len, c);
+        if p < clen {
+            assert!(wbit(largs[c], p) == bit(&old, start + p));
+            assert!(wbit(rargs[c], p) == bit(&r, roff + (start - off) + p));
+            assert!(bit(&d, start + p) == wbit(rets[c], p));
+            flipped = wbit(rets[c], p) != bit(&old, start + p);
+        } else {
+            assert!(!wbit(rargs[c], p));
+            if !(start == off && off % 8 != 0) || p >= 8 - off % 8 {
+                assert!(!wbit(largs[c], p));
+            }
+        }
+    }
+    let j: usize = kani::any();
+    kani::assume(j < 8 * NB);
+    let mut frame_bit_set = false;
+    if j < off || j >= off + len {
+        assert!(bit(&d, j) == bit(&old, j));
+        frame_bit_set = bit(&old, j);
+    }
+    covers(BinCtx { off, roff, len, n, c, p, j, flipped, frame_bit_set });
+}
+
+macro_rules! apply_binary_fixed_offsets {
+    ($name:ident, $l:expr, $r:expr) => {
+        #[kani::proof]
+        #[kani::unwind(10)]
+        #[kani::stub(alloc::fmt::format, stub_format)]
+        fn $name() {
+            apply_binary_op_check($l, $r, kani::any(), |x| {
+                kani::cover!(x.len == 0);
+                kani::cover!(x.len == 8 * NB - $l && x.c == 2 && x.flipped);
+                kani::cover!(x.len == 70 && x.c == 1 && x.p == 5 && x.flipped && x.frame_bit_set && x.j == $l + 70);
+            });
+        }
+    };
+}
+// @unit name=apply_binary_op_0_0 props=C19 kind=bounded bound=buffers=24_bytes_offsets=(0,0)_all_lengths timeout=300
+//       fns=apply_bitwise_binary_op,byte_aligned_bitwise_bin_op_helper,handle_mutable_buffer_remainder,U64UnalignedSlice::split,U64UnalignedSlice::zip_modify
+apply_binary_fixed_offsets!(apply_binary_op_0_0, 0, 0);
+// the same with the right side at a sub-byte offset: thorough tier (measured 70-230 s depending on machine load)
+// @unit name=apply_binary_op_8_5 props=C19 kind=bounded bound=buffers=24_bytes_offsets=(8,5)_all_lengths tier=thorough timeout=1200 mem=3
+//       fns=apply_bitwise_binary_op,byte_aligned_bitwise_bin_op_helper,handle_mutable_buffer_remainder,U64UnalignedSlice::split,U64UnalignedSlice::zip_modify
+apply_binary_fixed_offsets!(apply_binary_op_8_5, 8, 5);
+
+macro_rules! apply_binary_shape {
+    ($name:ident, $l:expr, $r:expr, $len:expr) => {
+        #[kani::proof]
+        #[kani::unwind(10)]
+        #[kani::stub(alloc::fmt::format, stub_format)]
+        fn $name() {
+            apply_binary_op_check($l, $r, $len, |x| {
+                kani::cover!(x.c == x.n - 1 && x.flipped);
+                kani::cover!(x.frame_bit_set && x.j == $l + $len); // the first bit after the range shares its byte
+            });
+        }
+    };
+}
+// left byte aligned, right shifted: one word + 6-bit remainder
+// (not yet run under load: thorough until confirmed)
+// @unit name=apply_binary_op_8_5_70 props=C19 kind=bounded tier=thorough bound=buffers=24_bytes_shape=(loff=8,roff=5,len=70) timeout=300
+//       fns=apply_bitwise_binary_op,byte_aligned_bitwise_bin_op_helper,handle_mutable_buffer_remainder,U64UnalignedSlice::split,U64UnalignedSlice::zip_modify
+apply_binary_shape!(apply_binary_op_8_5_70, 8, 5, 70);
+// head chunk only, ends inside the first byte
+// @unit name=apply_binary_op_3_6_2 props=C19 kind=bounded bound=buffers=24_bytes_shape=(loff=3,roff=6,len=2) timeout=300
+//       fns=apply_bitwise_binary_op,align_to_byte,read_up_to_byte_from_offset
+apply_binary_shape!(apply_binary_op_3_6_2, 3, 6, 2);
+// head chunk + one word + 13-bit remainder, right side at a smaller sub-byte offset
+// @unit name=apply_binary_op_6_1_79 props=C19 kind=bounded bound=buffers=24_bytes_shape=(loff=6,roff=1,len=79) timeout=300
+//       fns=apply_bitwise_binary_op,byte_aligned_bitwise_bin_op_helper,align_to_byte,read_up_to_byte_from_offset,handle_mutable_buffer_remainder,U64UnalignedSlice::split,U64UnalignedSlice::zip_modify
+apply_binary_shape!(apply_binary_op_6_1_79, 6, 1, 79);
+// head chunk + 11-bit remainder (no full word), equal sub-byte offsets
+// @unit name=apply_binary_op_3_3_16 props=C19 kind=bounded bound=buffers=24_bytes_shape=(loff=3,roff=3,len=16) timeout=300
+//       fns=apply_bitwise_binary_op,byte_aligned_bitwise_bin_op_helper,align_to_byte,read_up_to_byte_from_offset,handle_mutable_buffer_remainder,U64UnalignedSlice::split
+apply_binary_shape!(apply_binary_op_3_3_16, 3, 3, 16);
+
+// @unit name=apply_binary_op_contract props=C19 kind=bounded bound=buffers=24_bytes_all_offsets_and_lengths tier=thorough timeout=1800 mem=4
+//       fns=apply_bitwise_binary_op,byte_aligned_bitwise_bin_op_helper,align_to_byte,read_up_to_byte_from_offset,handle_mutable_buffer_remainder,U64UnalignedSlice::split,U64UnalignedSlice::zip_modify
+#[kani::proof]
+#[kani::unwind(10)]
+#[kani::stub(alloc::fmt::format, stub_format)]
+fn apply_binary_op_contract() {
+    apply_binary_op_check(kani::any(), kani::any(), kani::any(), |x| {
+        kani::cover!(x.len == 0);
+        kani::cover!(x.off % 8 != 0 && x.len < 8 - x.off % 8 && x.j / 8 == x.off / 8 && x.j >= x.off + x.len && x.frame_bit_set);
+        kani::cover!(x.off % 8 == 0 && x.roff % 8 == 5 && x.len == 70 && x.flipped);
+        kani::cover!(x.n == 4 && x.c == 3 && x.flipped);
+        kani::cover!(x.off == 0 && x.len == 192);
+    });
+}
